@@ -99,3 +99,31 @@ def valid(m):
         if len(set(t[:nv, k].tolist())) != nv:
             return False, f'cell {k} repeats a vertex'
     return True, ''
+
+
+def bary_signs(simplex, x):
+    """exact barycentric coordinates of x in a triangle / tetrahedron (tuple of Fractions); None if degenerate"""
+    n = len(simplex) - 1
+    det = det2 if n == 2 else det3
+    e = [sub(v, simplex[0]) for v in simplex[1:]]
+    D = det(*e)
+    if D == 0:
+        return None
+    lam = []
+    for i in range(n + 1):
+        s2 = list(simplex)
+        s2[i] = x
+        lam.append(det(*[sub(v, s2[0]) for v in s2[1:]]) / D)
+    return lam
+
+
+def cover_counts(children, x):
+    """(#children containing x in their interior, #children containing x in their closure)"""
+    strict = closed = 0
+    for ch in children:
+        lam = bary_signs(ch, x)
+        if lam is None:
+            continue
+        strict += all(l > 0 for l in lam)
+        closed += all(l >= 0 for l in lam)
+    return strict, closed
